@@ -698,6 +698,8 @@ func (t *Topic) handleLeaveRequest(msg *ClientComMessage, sess *Session) {
 		if err != nil {
 			// Group topic cannot be addressed as channel unless channel functionality is enabled.
 			sess.queueOut(ErrNotFoundReply(msg, now))
+			// The request has been answered: do not go on to detach the session and answer once more.
+			return
 		}
 	}
 
